@@ -1018,3 +1018,76 @@ def regex_kernels(ctx):
             except Exception: got = 'unparsable:' + out
             if r['rc'] != 0 or b'panicked' in r['stderr'] or not jsame(got, exp):
                 c.replay = {'argv': ['--select', expr + '=r'], 'stdin': '{}', 'expected': exp, 'actual': got, 'rc': r['rc'], 'stderr': shw(r['stderr'])[-200:]}; c.status = 'reproduced'; break
+
+
+# ---------------------------------------------------------------- parse: the string holds exactly one JSON value
+def parse_kernel(ctx):
+    """(parse s): the tokenizer is summarised by its contract (tok.* decide what it returns): the k-th next_json_value call
+    on the reader made from the argument answers the k-th entry of a script over {a value, end of text, an error}. Documented:
+    the value when the text is exactly one JSON value - the first call gives a value AND what follows it is the end of the
+    text - nothing otherwise, and nothing for a non-string."""
+    run = ctx.run
+    fam = run.family('fn.parse', '(parse s) is the JSON value the string spells when the string holds exactly one value (the tokenizer gives a value and then the end of the text), nothing when anything follows it, when it is not JSON, or for a non-string')
+    run.bounds['parse'] = 'every script of two tokenizer answers over value / end of text / error; argument a string, a number, nothing'
+    inl = conversions(ctx)
+    try:
+        fs = find_impl(Exec(ctx.fns), 'json_value', 'from_str', r'^&str$', r'Result<JsonValue,')
+        inl = inl + [(r'^<JsonValue as FromStr>::from_str$|^JsonValue::from_str$|^core::str::<impl str>::parse::<JsonValue>$', '^' + re.escape(fs) + '$')]
+    except Broken:
+        pass
+    allc = []
+    OUT = ('value', 'end', 'error')
+    for argshape in ('string', 'number', 'nothing'):
+        for script in (itertools.product(OUT, repeat=2) if argshape == 'string' else [('value', 'end')]):
+            def s_from_string(ex, st, func, a, ty):
+                r = named(st, 'READER', 'Reader'); st.events.append(('reader', origin(st, a[0]))); return [(st, r)]
+            def s_next(ex, st, func, a, ty, script=script):
+                k = sum(1 for e in st.events if e[0] == 'tok'); st.events.append(('tok', origin(st, a[0])))
+                o = script[k] if k < len(script) else 'end'
+                if o == 'value': return [(st, ok(st, some(st, named(st, f'VALUE{k}', 'JsonValue'))))]
+                if o == 'end': return [(st, ok(st, none(st)))]
+                return [(st, err(st, named(st, f'ERR{k}', 'JsonParserError')))]
+            def s_ok_or(ex, st, func, a, ty):
+                o = obj(st, a[0]); d = cval(ex.discr(st, o).t)
+                if d is None: raise Unmodelled('ok_or on a symbolic Option')
+                return [(st, ok(st, st.heap[o.oid][('f', 'Some', 0)]) if d == 1 else err(st, a[1]))]
+            def s_where(ex, st, func, a, ty): return [(st, named(st, st.fresh_name('loc'), 'Location'))]
+            tab = {0: (lambda st, ex: jv(st, ex, 'String', named(st, 'TEXT', 'String')))} if argshape == 'string' else {0: (lambda st, ex: jv(st, ex, 'Number', mk_enum(st, 'NumberValue', 0, ex.enums['NumberValue'][0], (BV(z3.BitVec('p', 64)),))))} if argshape == 'number' else {}
+            base = make_summaries(tab)
+            drop = (r'as Iterator>::collect::<', r' as Into<JsonValue>>::into$|<JsonValue as From<.*>>::from$', 'ToString>::to_string')
+            summ = [(r'(^|::)from_string$', s_from_string), (r'as JsonParser>::next_json_value$', s_next), (r'Option::<.*>::ok_or(::<.*>)?$', s_ok_or), (r'::where_am_i$', s_where)] + extra_summaries() + [s for s in base if not any(d in s[0] for d in drop)]
+            ex = ctx.exec(summaries=summ, inline=inl, max_visits=30)
+            F = ex.find(body_of('string/parse_and_stringify/parse'))
+            st = State(); so = named(st, 'self', 'Impl'); selfref = slot(st, so, 'self*'); c = slot(st, named(st, 'ctx', 'Context'), 'ctx*')
+            st.heap[so.oid][('f', None, 0)] = seqobj(st, 'Vec', [named(st, 'G0', 'Rc<dyn Get>')], origin='self.0')
+            PANICS.clear(); ex.new_frame(st, F, [selfref, c]); done = ex.run(st) + list(PANICS); PANICS.clear()
+            exp = ('opq', 'VALUE0') if argshape == 'string' and script == ('value', 'end') else None
+            for d in done:
+                run.paths += 1
+                if d.status == 'infeasible': continue
+                fam.obligations += 1; fam.paths += 1; fam.witnesses += 1
+                hav = (d.havoc or [None])[0]
+                def cand(role, text):
+                    cd = Candidate(fam.name, role, f'(parse <{argshape}>) with the tokenizer answering {list(script)}: {text}', {'fn': 'parse', 'script': list(script)}, unmodelled=hav)
+                    if not any(x.role == role for x in fam.candidates): fam.candidates.append(cd); allc.append(cd)
+                if d.status != 'returned': cand('panic' if d.status == 'panic' else f'path-{d.status}', f'{d.status}: {d.notes[-1] if d.notes else ""}'); continue
+                r = obj(d, d.ret); rd = cval(ex.discr(d, r).t)
+                if rd is None: cand('symbolic-result', 'returns an Option whose variant the path does not decide'); continue
+                got = deep(d, ex, d.heap[r.oid][('f', 'Some', 0)]) if rd == 1 else None
+                rd_ev = [e for e in d.events if e[0] == 'reader']; toks = [e for e in d.events if e[0] == 'tok']
+                if argshape == 'string' and (not rd_ev or rd_ev[0][1] != 'TEXT' or any(t[1] != 'READER' for t in toks)): cand('wrong-reader', f'the tokenizer is not run on the argument text (readers {rd_ev}, calls {toks})'); continue
+                if ex.valid(d, match(got, exp))[0]: fam.discharged += 1
+                else: cand('wrong-result', f'returns {pretty(got)}, documented: {pretty(exp)}')
+            run.absorb(ex)
+    from .cli import run_jawk, show as shw
+    DEMOS = [('(parse "1 2")', 'nothing'), ('(parse "[1, 2] trailing")', 'nothing'), ('(parse "12abc")', 'nothing'), ('(parse "true,")', 'nothing'), ('(parse "{} {}")', 'nothing'), ('(parse " [1, {\\"a\\": null}] ")', [1, {'a': None}]),
+             ('(parse "12")', 12), ('(parse "")', 'nothing'), ('(parse "[1,")', 'nothing'), ('(parse "nul")', 'nothing'), ('(parse 12)', 'nothing'), ('(parse "\\"x\\"")', 'x'), ('(parse "1e2")', 100), ('(parse "x 1")', 'nothing')]
+    for c in allc:
+        c.status = 'unit'
+        for expr, exp in DEMOS:
+            r = run_jawk(ctx, ['--select', expr + '=r', '--style', 'consise'], b'{}')
+            out = shw(r['stdout']).strip()
+            try: got = json.loads(out).get('r', 'nothing')
+            except Exception: got = 'unparsable:' + out
+            if r['rc'] != 0 or b'panicked' in r['stderr'] or not jsame(got, exp):
+                c.replay = {'argv': ['--select', expr + '=r'], 'stdin': '{}', 'expected': exp, 'actual': got, 'rc': r['rc']}; c.status = 'reproduced'; break
